@@ -598,6 +598,8 @@ def check_c10(tier, seed):
     out = Outcome("C10", tier, seed)
     # design level: the API layer's checks all precede its effects, also in the loops of create_storage_all / remove_storage_all
     design_api(out, 4 if tier == "quick" else 5)
+    if tier != "quick":
+        design_api(out, 4, v4=True)
     fid = Fidelity()
     run_batch(out, "edges", "A", edges_namespace(out, tier), extra_specs=("Trace_Phys",), keep=fid.lines)
     for dn, hs in random_batches(seed + 3, tier, 60, 500, 40, dicts=("A", "E")).items():
